@@ -226,6 +226,14 @@ CLAIMS = {
              'from the real schema: every name within max_name_len, names pairwise distinct, or the mapping is refused with DBSchemaError.',
         note='Catalog introspection on SQLite only; for server dialects the DDL text only (providers built without a connection). lower() / upper() assumed length-preserving. '
              'Two Oracle known findings (sequence name of schema-qualified tables; sequence / trigger name longer than 30).'),
+    'C29': dict(
+        text='PARTIAL: proof (z3, all array lengths and integer bounds) on the real ArrayMixin.__getitem__ / _index monads for the SQLite and PostgreSQL code paths with constant, parameter and '
+             'column bounds: the element / window the generated SQL selects under the dialect\'s array semantics is the one Python\'s a[i] / a[i:j] selects, NULL where Python raises. BOUNDED: '
+             'differential on real SQLite in both JSON modes (JSON1 and the py_json_* fallback): 12 JSON documents and 4 array triples x 41 JSON conditions, 9 JSON projections, 20 array '
+             'conditions, 17 array projections, 8 parameter values: selected rows / returned values equal the same Python expression on the decoded value (rows where Python raises are not '
+             'compared); JSON path text round trip _parse_path(eval_json_path(keys)); the registered py_array_* functions equal the Python operations on a grid.',
+        note='JSON operators of PostgreSQL / MySQL / Oracle servers cannot be executed here: not covered; PostgreSQL array semantics is an assumed contract. Five known findings (type coercion in '
+             'JSON comparisons, keys containing a double quote, negative JSON path index with JSON1, len() of non-arrays).'),
 }
 
 _NOT_BUILT = 'within reach of the technique per DESIGN.md, check not built yet'
